@@ -288,6 +288,7 @@ func gen(r *vh.Rand, tier string) []string {
 	out = append(out, ctagBoundary()...)
 	out = append(out, poptBoundary()...)
 	out = append(out, grpcOptBoundary()...)
+	out = append(out, rerrBoundary()...)
 	out = append(out, brokenSyntaxBoundary(r)...)
 	out = append(out, clicfgBoundary()...)
 	formats := []string{"uri", "uripost", "raw", "json"}
@@ -355,6 +356,7 @@ func gen(r *vh.Rand, tier string) []string {
 		out = append(out, ctagRandom(r), ctagRandom(r))
 		out = append(out, poptRandom(r), poptRandom(r), brokenSyntaxRandom(r), brokenSyntaxRandom(r))
 		out = append(out, grpcOptRandom(r)...)
+		out = append(out, rerrRandom(r), rerrRandom(r))
 		out = append(out, clicfgRandom(r), clicfgRandom(r), clicfgRandom(r))
 		out = append(out, strings.TrimRight(fmt.Sprintf("wfile %s %s %s", r.Pick(scenarioExts), r.Pick([]string{"http", "grpc"}), strings.Join(genWeights(r), " ")), " "))
 		{ // a mutated description of every format through the real provider constructor (fuzzed only)
